@@ -84,6 +84,18 @@ impl Database {
             names.reset();
         }
         zones.reset();
+        #[cfg(jiff_verif)]
+        crate::__verif::emit("reset", "", 0, 0);
+    }
+
+    /// Sets the time-to-live of cached zones and of the cached name listing.
+    #[cfg(jiff_verif)]
+    pub(crate) fn __verif_set_ttl(&self, ttl: Duration) {
+        let mut zones = self.zones.write().unwrap();
+        zones.ttl = ttl;
+        if let Some(ref names) = self.names {
+            names.inner.write().unwrap().ttl = ttl;
+        }
     }
 
     pub(crate) fn get(&self, query: &str) -> Option<TimeZone> {
@@ -103,6 +115,14 @@ impl Database {
         // time zone.
         {
             let zones = self.zones.read().unwrap();
+            #[cfg(jiff_verif)]
+            {
+                let (cached, fresh) = match zones.get(query) {
+                    None => (0, 0),
+                    Some(czone) => (1, if czone.is_expired() { 0 } else { 1 }),
+                };
+                crate::__verif::emit("fast", query, cached, fresh);
+            }
             if let Some(czone) = zones.get(query) {
                 if !czone.is_expired() {
                     trace!(
@@ -145,6 +165,8 @@ impl Database {
                 if czone.revalidate(&info, ttl) {
                     // Metadata on the file didn't change, so we assume the
                     // file hasn't either.
+                    #[cfg(jiff_verif)]
+                    crate::__verif::emit("revalidated", query, i as i64, 0);
                     return Some(czone.tz.clone());
                 }
                 // Revalidation failed. Re-read the TZif data.
@@ -155,11 +177,15 @@ impl Database {
                             "failed to re-cache time zone from file {}: {_err}",
                             info.inner.full.display(),
                         );
+                        #[cfg(jiff_verif)]
+                        crate::__verif::emit("gone", query, i as i64, 1);
                         return None;
                     }
                 };
                 let tz = czone.tz.clone();
                 zones.zones[i] = czone;
+                #[cfg(jiff_verif)]
+                crate::__verif::emit("reloaded", query, i as i64, 0);
                 Some(tz)
             }
             Err(i) => {
@@ -170,11 +196,28 @@ impl Database {
                             "failed to cache time zone from file {}: {_err}",
                             info.inner.full.display(),
                         );
+                        #[cfg(jiff_verif)]
+                        crate::__verif::emit("gone", query, i as i64, 0);
                         return None;
                     }
                 };
                 let tz = czone.tz.clone();
                 zones.zones.insert(i, czone);
+                #[cfg(jiff_verif)]
+                {
+                    // the cache must stay sorted (by lowercase name) and
+                    // free of duplicates: report a violation as b = 1
+                    let sorted = zones
+                        .zones
+                        .windows(2)
+                        .all(|w| w[0].name.lower() < w[1].name.lower());
+                    crate::__verif::emit(
+                        "inserted",
+                        query,
+                        i as i64,
+                        if sorted { 0 } else { 1 },
+                    );
+                }
                 Some(tz)
             }
         }
@@ -413,12 +456,25 @@ impl ZoneInfoNames {
         {
             let inner = self.inner.read().unwrap();
             if let Some(zone_info_name) = inner.get(query) {
+                #[cfg(jiff_verif)]
+                crate::__verif::emit("names_r", query, 1, 0);
                 return Some(zone_info_name);
             }
+            #[cfg(jiff_verif)]
+            crate::__verif::emit("names_r", query, 0, 0);
             drop(inner); // unlock
         }
         let mut inner = self.inner.write().unwrap();
+        #[cfg(jiff_verif)]
+        let refreshed = inner.expiration.is_expired();
         inner.attempt_refresh();
+        #[cfg(jiff_verif)]
+        crate::__verif::emit(
+            "names_w",
+            query,
+            if inner.get(query).is_some() { 1 } else { 0 },
+            if refreshed { 1 } else { 0 },
+        );
         inner.get(query)
     }
 
